@@ -357,8 +357,8 @@ def framing_cases(tier, rng, thorough):
 
 
 def fuzz_cases(tier, rng, thorough):
-    n_rand = 40 if thorough else 6
-    n_mut = 260 if thorough else 34
+    n_rand = 80 if thorough else 40
+    n_mut = 900 if thorough else 320
     for c in CONFIGS:
         # (b) random bytes
         for _ in range(n_rand):
